@@ -53,6 +53,8 @@ class ExplodeColorLayerGlyphsFilter(BaseFilter):
         layerGlyph.unicodes = []
         glyphSet[layerGlyphName] = layerGlyph
         self.context.colorLayerGlyphNames.add(layerGlyphName)
+        # report the added glyph so that callers can refresh derived data
+        self.context.modified.add(layerGlyphName)
         return layerGlyphName
 
     def filter(self, glyph):
